@@ -189,6 +189,9 @@ func c06Run(c jCase) (V, Verdict) {
 			v = Fail(sig, fmt.Sprintf("peer %d call %d: %s", e.Op.P, e.Seq, what))
 		}
 	}
+	if sig, what := log.projFailure(); sig != "" && v.OK {
+		v = Fail(sig, what)
+	}
 	if v.OK {
 		v.NonTrivial = descs >= 1 && maxSecs >= 2
 		v.Class = fmt.Sprintf("peers%d/descs%d/maxsecs%d/errs%d", c.Peers, min(descs, 4), min(maxSecs, 4), min(errs, 2))
